@@ -6,6 +6,7 @@
   adds no per-process entropy is the tie's job (process matrix), not a theorem.
 -/
 import Pyab.Properties.C01_key
+import Pyab.Properties.PurePremise
 import Pyab.Properties.ChoicePure
 import Pyab.Properties.C11
 namespace Pyab.Properties
